@@ -45,7 +45,7 @@ def main(tier, replay):
                 tier = l.split("tier=")[1].split()[0]
     chk = vlib.Check(PROP, tier, level="proof")
     audit = vlib.lean_gate(chk, PROP)
-    stats = vlib.run_differential(chk, PROP, "c08_ossps", tier, compare=compare)
+    stats = vlib.run_differential(chk, PROP, "c08_ossps", tier, compare=compare, ctx_prefixes=("cfg", "recfg"))
     info = {}
     of = os.path.join(vlib.OUT, "%s_%s.impl.oracle" % (PROP.lower(), tier))
     if os.path.exists(of):
@@ -96,7 +96,35 @@ def main(tier, replay):
         "recovered from unclamped voxels, equal to alpha/(1+gamma n) with n the full-iteration number; full formula per voxel; saved files "
         "equal the iterates after end_of_iteration_processing and the next sub-iteration starts from them; resumed runs (recomputed "
         "denominator, and denominator read back from the file set_up wrote) bitwise equal to the uninterrupted run, filters included; "
-        "mismatching / missing denominator files refused.",
+        "mismatching / missing denominator files refused.  "
+        "OBJECT RE-USE HISTORIES (ops recfg / resetup / resetupf; 3 per generated geometry + 2 on a parsed object): ONE OSSPSReconstruction object, ONE "
+        "objective function object and ONE prior object (unless replaced on purpose) go through 2-3 consecutive set_up(target) -> "
+        "reconstruct(target) runs: (kind 0) the same configuration and start image again and again (always one with a quadratic prior x 3 "
+        "runs and one with `precomputed denominator := 1` + prior); (kind 1) every run changes a random non-empty subset of: input "
+        "projection data, additive term (on/off/new), normalisation (on/off/new factors), number of subsets + start subset, alpha/gamma/"
+        "upper bound, prior penalisation factor (also 0), the prior object (none / quadratic / image dependent, new kappa / weights), start "
+        "image, `precomputed denominator` mode (computed / 1 / the file an earlier set_up of this object wrote, only while data and "
+        "normalisation are unchanged / a user file), restart at sub-iteration k+1 from a saved iterate of the previous run; (kind 2) an "
+        "interrupted run continued on the same object (set_start_subiteration_num(k+1), start image = saved iterate k read from file or the "
+        "very image object of the previous run), 2-3 legs.  For every run of a history the full problem (rows, normalisation, prior, "
+        "parameters) is given to the Lean model again while the model's object keeps the stored denominator the previous run left "
+        "(Model.setUpObject / runHistory); compared as for single runs: D0 written by THIS set_up against the model's -H(1) for the CURRENT "
+        "data, every gradient / curvature / sub-iteration (the model's D is D0 of the current data + 2 x prior curvature, once).  Oracle: "
+        "set_up of the re-used object rewrites the denominator file, bitwise equal to -add_multiplication_with_approximate_Hessian_without_"
+        "penalty(ones) of the current objective function and equal to its definition from the current rows; all single-run clauses "
+        "(bounds, gradient definition, one zeta, relaxation schedule, full formula with D = D0 + 2 curvature); every sub-iterate and the "
+        "denominator file bitwise equal to those of a FRESH reconstruction + objective function + prior configured identically; kind 2: "
+        "bitwise equal to the uninterrupted run of a fresh object.  PARAMETER FILES (the users' path; non-TOF): OSSPS parameter files "
+        "written by the harness (objective function with input file / additive sinogram / Bin Normalisation From ProjData / quadratic "
+        "prior with kappa file / ray tracing matrix switches, initial estimate, output prefix, subsets, sub-iterations) are parsed by "
+        "initialise(), the image comes from get_initial_data_ptr(), then set_up + reconstruct(target): per run one configuration that "
+        "leaves ALL OSSPS keys (relaxation parameter, relaxation gamma, upper bound, enforce initial positivity condition, write update "
+        "image, filters, start at subset) to the parser (op pardefaults: the parsed values are the model's Params.default, which the model "
+        "then uses for the run; no filters; no update image files) and one that writes every key (incl. `write update image := 1`: the "
+        "file is the additive update before the clamp); each through the whole single-run programme (uninterrupted, second reconstruct() "
+        "without set_up, resumed by parameter file with `start at subiteration number`, `initial estimate := <saved iterate>`, "
+        "`precomputed denominator := <file>`, refused denominator files) and compared bitwise with the same configuration made through "
+        "the setters; plus 2 histories on a parsed object.  Without filters the iterate handed out equals the image update_estimate left.",
         extra=dict(harness_counts=info))
     chk.assumptions += ["float rounding is modelled only through the forward error bounds above (the model is exact rational arithmetic)",
                         "normalisation only through BinNormalisationFromProjData (factor per bin, independent of the TOF bin; other normalisation classes: C05/C13); "
@@ -110,7 +138,14 @@ def main(tier, replay):
                         "the transaxial voxel size of the generated images is a multiple of 0.25 mm: the Interfile header written with a saved iterate "
                         "keeps 6 significant digits of the voxel size, other grids are not reproduced exactly by a resumed run's set_up (C10)",
                         "the objective function is observed through recording subclasses (compute_sub_gradient, parabolic_surrogate_curvature) and public API only",
-                        "32-bit overflow not modelled"]
+                        "32-bit overflow not modelled",
+                        "object re-use: between the runs of a history only public setters are used (set_proj_data_sptr, set_additive_proj_data_sptr, set_normalisation_sptr, "
+                        "set_prior_sptr, set_penalisation_factor, set_num_subsets, set_start_subset_num, set_num_subiterations, set_start_subiteration_num, "
+                        "set_output_filename_prefix; relaxation / upper bound / `precomputed denominator` through a subclass, they have no setter); projector pair, "
+                        "zero_seg0_end_planes, use_subset_sensitivities, filters and the image grid stay fixed within a history; histories never randomise the subset order; "
+                        "a set_up that refuses is not followed by a run",
+                        "parameter files: non-TOF data, quadratic prior with default 3D / 2D weights (+ kappa file) only, no filters, trivial or From ProjData normalisation; "
+                        "KeyParser itself (keyword matching, value syntax) is C17's subject"]
     if audit:
         vlib.proof_coverage(chk, audit, "cd lean && lake build StirVerif.C08.Props Driver.C08 && lake env lean ../build/out/Audit_C08.lean")
     return chk.finish()
